@@ -306,8 +306,8 @@ impl<T, Codec, const BUFFER: usize, const MAX_ITEM_SIZE: usize> Receiver<T, Code
     /// yet been closed, this method will sleep until a message is sent or the channel is closed.
     ///
     /// If a non-final receive error occurs (for example due to a message being not
-    /// deserializable), the error is reported but alreadyed buffered messages from the
-    /// same batch are lost.
+    /// deserializable), the error is reported after the other messages of the same batch
+    /// have been added to the buffer.
     ///
     /// ### Cancel safety
     /// This method is cancel safe.
@@ -328,6 +328,7 @@ impl<T, Codec, const BUFFER: usize, const MAX_ITEM_SIZE: usize> Receiver<T, Code
         }
 
         let mut p = 0;
+        let mut item_err = None;
         for send_req in send_req_buf {
             match send_req.ack() {
                 Ok(value_opt) => {
@@ -339,14 +340,18 @@ impl<T, Codec, const BUFFER: usize, const MAX_ITEM_SIZE: usize> Receiver<T, Code
                         if self.final_err.is_none() {
                             self.final_err = Some(err);
                         }
-                    } else {
-                        return Err(err);
+                    } else if item_err.is_none() {
+                        // The rest of the batch has already left the queue and must still be delivered.
+                        item_err = Some(err);
                     }
                 }
             }
         }
 
-        Ok(p)
+        match item_err {
+            Some(err) => Err(err),
+            None => Ok(p),
+        }
     }
 
     /// Returns the number of values available for receiving.
